@@ -212,6 +212,10 @@ where
         // Get next tokens (lexer should skip ws if configured to do so).
         // If error run layout_parser. If there is layout try next tokens again.
         // If no next token can be returned report error returned from the lexer.
+        //
+        // The layout found before the previous token does not belong to the
+        // next one.
+        context.set_layout_ahead(None);
         loop {
             let expected_tokens = self.definition.expected_token_kinds(context.state());
             let mut next_tokens = self.lexer.next_tokens(context, input, expected_tokens);
